@@ -360,3 +360,103 @@ pub fn run_b(seed: u64, mut ov: impl FnMut(&mut engine::Cfg)) -> ! {
     }
     engine::finish_ok()
 }
+
+// ------------------------------------------------------------------------------------------------
+// family C: heavy traffic across several blocks with immediate address reuse (allocator LIFO mode)
+// so that a stalled taker can hit the "block freed and re-allocated at the same address" case
+// ------------------------------------------------------------------------------------------------
+
+pub fn run_c(seed: u64, mut ov: impl FnMut(&mut engine::Cfg)) -> ! {
+    let mut r = gen_rng(seed);
+    let pushes = r.range(40, 110) as usize;
+    let n_cons = r.range(2, 3) as usize;
+    let burst = r.range(1, 6) as usize;
+    let mut cfg = swarm_cfg(seed, &Swarm { est_len: 4000, ..swarm() });
+    // mostly LIFO reuse, sometimes poison
+    cfg.alloc_mode = if r.chance(4, 5) { 1 } else { 2 };
+    ov(&mut cfg);
+    engine::init(cfg);
+    engine::set_extra("params", engine::json_str(&format!("pushes {} consumers {} burst {}", pushes, n_cons, burst)));
+
+    let q: Arc<spmc::Queue<Tok>> = Arc::new(spmc::Queue::new());
+    let all_ids: Arc<Mutex<Vec<u32>>> = Arc::new(Mutex::new(Vec::new()));
+    let owner_done = Arc::new(AtomicU32::new(0));
+    let mut actors = Vec::new();
+    {
+        let q = q.clone();
+        let all_ids = all_ids.clone();
+        let owner_done = owner_done.clone();
+        let nc = n_cons as u32;
+        actors.push(engine::spawn("owner", move || {
+            for k in 0..pushes {
+                let id = k as u32;
+                all_ids.lock().unwrap().push(id);
+                q.push(Tok::new(id));
+                // let the consumers drain the queue now and then so that it runs empty
+                if k % burst == burst - 1 {
+                    engine::yield_point();
+                }
+            }
+            owner_done.store(1, Ordering::Relaxed);
+            let mut extra = 0;
+            while FINISHED.load(Ordering::Relaxed) < nc && extra < 400 {
+                let id = NEXT_EXTRA.fetch_add(1, Ordering::Relaxed);
+                all_ids.lock().unwrap().push(id);
+                q.push(Tok::new(id));
+                extra += 1;
+                engine::sleep(1_000_000);
+            }
+        }));
+    }
+    for ci in 0..n_cons {
+        let q = q.clone();
+        let owner_done = owner_done.clone();
+        let use_bulk = ci == 1;
+        actors.push(engine::spawn(&format!("consumer{}", ci), move || {
+            let mut idle = 0;
+            loop {
+                let mut got = 0;
+                if use_bulk {
+                    let v = q.bulk_pop();
+                    for t in v.iter() {
+                        taken(t.id(), "consumer");
+                        got += 1;
+                    }
+                } else if let Some(t) = q.pop() {
+                    taken(t.id(), "consumer");
+                    got += 1;
+                }
+                if got == 0 {
+                    if owner_done.load(Ordering::Relaxed) == 1 {
+                        idle += 1;
+                        if idle > 2 {
+                            break;
+                        }
+                    }
+                    engine::yield_point();
+                }
+            }
+            FINISHED.fetch_add(1, Ordering::Relaxed);
+        }));
+    }
+    engine::set_vt_limit(engine::now() + 3_000_000_000);
+    for a in actors {
+        engine::join(a);
+    }
+    loop {
+        let v = q.bulk_pop();
+        if v.is_empty() {
+            break;
+        }
+        for t in v.iter() {
+            taken(t.id(), "final drain");
+        }
+    }
+    match Arc::try_unwrap(q) {
+        Ok(q) => drop(q),
+        Err(_) => violation("harness: queue still shared"),
+    }
+    check_all_taken(&all_ids.lock().unwrap());
+    engine::set_extra("alloc_reuse", format!("{}", crate::alloc::REUSED.load(Ordering::Relaxed)));
+    engine::finish_ok()
+}
